@@ -19,6 +19,10 @@ Directed family for the refinable cuckoo policy (every run): a thread is parked 
 capacity test and before it takes its cells, another thread completes a resize (the lock arrays are replaced) and
 is then stopped at every step of a critical section on the same key, then the first thread runs on: a pilot run
 finds the step numbers.  This is the scenario of the seeded change C16a (acquire() without the capacity re-check).
+The same for StripedSet/Map with the refinable policy (seeded change C16b: acquire() without the `m_arrLocks == pLocks`
+re-check): a thread parked after it copied the lock-array pointer, a complete resize, the thread takes its (old) cell
+and is parked before its bucket access, a second resize stopped at every step from the installation of the new bucket
+table on, then the thread runs on (a third of the refinable variants per run in the quick tier, all in thorough).
 One cuckoo case in four is 'crowded' (one table-1 probe set for all keys, two buckets, insert-heavy) so that
 relocation faults, the relocation limit and resizes under contention are exercised.  A run that reaches the step
 limit (seen only as a lock-step livelock of the round-robin tail of a schedule on the refinable policy's m_access /
@@ -384,6 +388,68 @@ def parked_cases(pilots, logs):
     return out
 
 
+STRIPED_PARK_STEPS = 4   # begin, m_Owner.load, m_access.exchange (the lock-array pointer is copied), m_access.store
+
+
+def parked_striped_programs(rng, name, every):
+    """refinable StripedSet/Map: thread 1 inserts key 0; thread 0 starts an operation on key 0 and is parked inside
+    acquire() after it copied the lock-array pointer, before it locks its cell; thread 1 inserts 2 (the resize that
+    replaces the lock array completes); thread 0 locks its cell and passes the re-check (or not) and is parked again
+    before it touches its bucket; thread 1 inserts 4: a second resize, stopped after the new (still empty) bucket
+    table is installed and after each item it moves; then thread 0 runs on.  -> pilot cases (thread 1 alone first)"""
+    src, grp, kind, variants = EXES[name]
+    out = []
+    if not kind.startswith("striped"):
+        return out
+    for i, v in enumerate([v for v in variants if (v >> 1) & 1 == 1]):
+        if every > 1 and rng.below(every) != 0:
+            continue
+        cfg = [v, 16, 0, 1, 5, 0, NKEYS, LOOP_FUEL]
+        threads = [[[rng.choice([8, 8, 1]), 0, 11, 1]],
+                   [[1, 0, 21, 1], [1, 2, 22, 1], [1, 4, 23, 1], [8, 0, 24, 1]]]
+        out.append({"id": "%s_spark%d" % (name, i), "cfg": cfg, "threads": threads, "sched": [1] * 2500, "exe": name})
+    return out
+
+
+def _is_mask_store(line):
+    t = line.split(" ")
+    if len(t) < 6 or t[1] != "st" or not t[-1].startswith("i"):
+        return False
+    try:
+        v = int(t[-1][1:])
+    except ValueError:
+        return False
+    return v >= 31 and (v + 1) & v == 0
+
+
+def parked_striped_cases(pilots, logs):
+    out = []
+    for p in pilots:
+        lg = logs.get(p["id"])
+        if lg is None or lg["end"] != "finished":
+            continue
+        steps = 0; rets = []; mask_st = []
+        for l in lg["lines"]:
+            if not l.startswith("1 "):
+                continue
+            if " ev " in l:
+                if l.startswith("1 ev ret"):
+                    rets.append(steps)
+                continue
+            steps += 1
+            if _is_mask_store(l):
+                mask_st.append(steps)
+        if len(rets) < 3 or len(mask_st) < 2 or not (rets[1] < mask_st[1] <= rets[2]):
+            continue                        # not the expected shape (no second resize in the third insert)
+        s0, s1, s2 = rets[0], rets[1], mask_st[1]
+        for d in range(0, min(rets[2] - s2, 12) + 1):
+            c = dict(p)
+            c["id"] = "%s_%d" % (p["id"], d)
+            c["sched"] = [1] * s0 + [0] * STRIPED_PARK_STEPS + [1] * (s1 - s0) + [0] * 4 + [1] * (s2 - s1 + d) + [0] * 200 + [1] * 400
+            out.append(c)
+    return out
+
+
 def gen_cases(rng, name, n, tag):
     src, grp, kind, variants = EXES[name]
     cases = []
@@ -496,7 +562,7 @@ def parse_finals(extra):
     return finals, size, size_after, dup
 
 
-def run_impl(ctx, exe, cases, tag, timeout=900):
+def run_impl(ctx, exe, cases, tag, timeout=150):
     cf = os.path.join(ctx.work, tag + ".txt")
     conc_check.write_cases(cf, cases)
     rc, out = vcheck.sh([exe, cf], timeout=timeout)
@@ -611,6 +677,11 @@ def run(ctx):
             rc, plogs = run_impl(ctx, exes[name], pilots, "pilot_" + name)
             parked[name] = parked_cases(pilots, plogs)
             allcases[name] = allcases[name] + parked[name]
+        spilots = parked_striped_programs(prng, name, 1 if ctx.thorough() else 3)
+        if spilots:
+            rc, plogs = run_impl(ctx, exes[name], spilots, "spilot_" + name)
+            parked[name] = parked_striped_cases(spilots, plogs)
+            allcases[name] = allcases[name] + parked[name]
     results = {}
 
     mresults = {}
@@ -680,6 +751,7 @@ def run(ctx):
         "step_correspondence": corr,
         "cases_with_the_C17_sequential_drop": len(DROPPED),
         "directed_cases_thread_parked_in_refinable_acquire_across_a_resize": sum(len(v) for v in parked.values()),
+        "of_which_striped": sum(len(v) for k, v in parked.items() if k.startswith("striped")),
         "traces_validated_against_impl": sum(v["agree"] for v in corr.values()),
     })
     return ctx.finish(vcheck.STD_TRUSTED + ["hook layer: khizmax_libcds_verif::atomic<T>, baton scheduler, event log (hooks/include)",
